@@ -6,6 +6,8 @@ import TPV.Model.DataLoader
 import Mathlib.Algebra.Order.Field.Rat
 import Mathlib.Tactic.Ring
 import Mathlib.Tactic.Linarith
+import Mathlib.Data.Nat.ModEq
+import Mathlib.Data.Int.GCD
 
 namespace TPV.DataLoader
 
@@ -231,6 +233,129 @@ theorem uniqueOld_not_cover_4_2_6_2 : uniqueCoversWith uniqueSplitOld 4 2 6 2 = 
     sizes 2 and 2 — the joint index only ever pairs the k-th function batch with the k-th location
     batch (a recorded finding, see known_findings.json) -/
 theorem shared_not_cover_4_2_4_2 : sharedCovers 4 2 4 2 = false := by decide +kernel
+
+/-- membership in the wrap-around slice: offsets `t < bs` from the start, modulo the data size -/
+theorem wrapSlice_mem_of_offset (n bs idx t : Nat) (hn : 0 < n) (hle : bs ≤ n) (ht : t < bs) :
+    (idx * bs + t) % n ∈ wrapSlice n bs idx := by
+  have e : (idx + 1) * bs = idx * bs + bs := by rw [Nat.add_mul, Nat.one_mul]
+  have ha := Nat.mod_lt (idx * bs) hn
+  have h1 : (idx * bs + t) % n = ((idx * bs) % n + t) % n := by rw [Nat.add_mod, Nat.mod_eq_of_lt (a := t) (by omega)]
+  have h2 : ((idx + 1) * bs) % n = ((idx * bs) % n + bs) % n := by
+    rw [e, Nat.add_mod]; by_cases hb : bs = n
+    · subst hb; simp
+    · rw [Nat.mod_eq_of_lt (a := bs) (by omega)]
+  rw [h1]; simp only [wrapSlice, h2]
+  generalize (idx * bs) % n = a at *
+  by_cases hw : a + bs < n
+  · rw [Nat.mod_eq_of_lt hw, if_pos (by omega), Nat.mod_eq_of_lt (by omega)]
+    simp only [List.mem_map, List.mem_range]; exact ⟨t, by omega, by omega⟩
+  · have hb : (a + bs) % n = a + bs - n := by
+      rw [Nat.mod_eq_sub_mod (by omega)]; exact Nat.mod_eq_of_lt (by omega)
+    rw [hb, if_neg (by omega)]
+    simp only [List.mem_append, List.mem_map, List.mem_range]
+    by_cases hx : a + t < n
+    · rw [Nat.mod_eq_of_lt hx]; exact Or.inl ⟨t, by omega, by omega⟩
+    · have : (a + t) % n = a + t - n := by
+        rw [Nat.mod_eq_sub_mod (by omega)]; exact Nat.mod_eq_of_lt (by omega)
+      rw [this]; exact Or.inr (by omega)
+
+theorem lcm_div_right (n b : Nat) (hb : 0 < b) : Nat.lcm n b / b = n / Nat.gcd n b := by
+  have hg : 0 < Nat.gcd n b := Nat.gcd_pos_of_pos_right n hb
+  obtain ⟨k, hk⟩ := Nat.gcd_dvd_left n b
+  have h := Nat.gcd_mul_lcm n b
+  have hl : Nat.lcm n b = k * b := by
+    apply Nat.eq_of_mul_eq_mul_left hg
+    rw [h]; conv => lhs; rw [hk]
+    ring
+  rw [hl, Nat.mul_div_cancel _ hb]
+  exact (Nat.div_eq_of_eq_mul_right hg hk).symm
+
+/-- the starts `idx·b mod n` reach every multiple of `g = gcd n b` below `n` -/
+theorem exists_start (n b s : Nat) (hn : 0 < n) (hb : 0 < b) (hs : s < n) (hdiv : Nat.gcd n b ∣ s) :
+    ∃ i, (i * b) % n = s := by
+  by_cases hg : Nat.gcd b n < n
+  · obtain ⟨m, -, hm⟩ := Nat.exists_mul_mod_eq_gcd hg
+    obtain ⟨q, hq⟩ := hdiv
+    refine ⟨m * q, ?_⟩
+    rw [Nat.gcd_comm] at hm
+    have : m * q * b = (b * m) * q := by ring
+    rw [this, Nat.mul_mod, hm, Nat.mul_mod_mod, ← hq]
+    exact Nat.mod_eq_of_lt hs
+  · have : Nat.gcd b n = n := le_antisymm (Nat.gcd_le_right b hn) (Nat.le_of_not_lt hg)
+    rw [Nat.gcd_comm] at this
+    rw [this] at hdiv
+    have hs0 : s = 0 := Nat.eq_zero_of_dvd_of_lt hdiv hs
+    exact ⟨0, by simp [hs0]⟩
+
+/-- **coverage of the shared layout under the coprimality side condition**: if the two periods
+    `nB / gcd(nB,bB)` and `nT / gcd(nT,bT)` are coprime, one pass (`sharedLen` batches) presents every
+    (function, location) pair. -/
+theorem shared_cover (nB bB nT bT : Nat) (hbB : 0 < bB) (hB : bB ≤ nB) (hbT : 0 < bT) (hT : bT ≤ nT)
+    (hco : Nat.Coprime (nB / Nat.gcd nB bB) (nT / Nat.gcd nT bT))
+    (f x : Nat) (hf : f < nB) (hx : x < nT) :
+    ∃ idx, idx < sharedLen nB bB nT bT ∧
+      f ∈ (sharedBatch nB bB nT bT idx).1 ∧ x ∈ (sharedBatch nB bB nT bT idx).2 := by
+  have hnB : 0 < nB := by omega
+  have hnT : 0 < nT := by omega
+  -- per axis: an index class whose window contains the datum
+  have axis : ∀ (n b i : Nat), 0 < b → b ≤ n → i < n →
+      ∃ i0, ∀ idx, idx ≡ i0 [MOD n / Nat.gcd n b] → i ∈ wrapSlice n b idx := by
+    intro n b i hb hle hi
+    have hn : 0 < n := by omega
+    set g := Nat.gcd n b with hgdef
+    have hg : 0 < g := Nat.gcd_pos_of_pos_right n hb
+    have hgb : g ≤ b := Nat.le_of_dvd hb (Nat.gcd_dvd_right n b)
+    obtain ⟨i0, hi0⟩ := exists_start n b (i / g * g) hn hb
+      (lt_of_le_of_lt (Nat.div_mul_le_self i g) hi) (Dvd.intro_left _ rfl)
+    refine ⟨i0, fun idx hmod => ?_⟩
+    -- the start only depends on idx mod n/g
+    have hstart : (idx * b) % n = (i0 * b) % n := by
+      have h1 : idx * b ≡ i0 * b [MOD (n / g) * b] := Nat.ModEq.mul_right' b hmod
+      have hdvd : n ∣ (n / g) * b := by
+        obtain ⟨k, hk⟩ := Nat.gcd_dvd_right n b
+        have : n / g * b = n / g * g * k := by rw [Nat.mul_assoc, ← hk]
+        rw [this, Nat.div_mul_cancel (Nat.gcd_dvd_left n b)]
+        exact Dvd.intro _ rfl
+      exact (Nat.ModEq.of_dvd hdvd h1)
+    have hmem := wrapSlice_mem_of_offset n b idx (i - i / g * g) hn hle (by
+      have := Nat.mod_lt i hg
+      have h2 := Nat.div_add_mod i g
+      have h3 : g * (i / g) = i / g * g := Nat.mul_comm _ _
+      omega)
+    have hval : (idx * b + (i - i / g * g)) % n = i := by
+      have hle' := Nat.div_mul_le_self i g
+      rw [Nat.add_mod, hstart, hi0, Nat.mod_eq_of_lt (a := i - i / g * g) (by omega),
+        Nat.add_sub_cancel' hle']
+      exact Nat.mod_eq_of_lt hi
+    rw [hval] at hmem; exact hmem
+  obtain ⟨iB, hiB⟩ := axis nB bB f hbB hB hf
+  obtain ⟨iT, hiT⟩ := axis nT bT x hbT hT hx
+  have hpB : nB / Nat.gcd nB bB ≠ 0 := by
+    have := Nat.div_pos (Nat.le_of_dvd hnB (Nat.gcd_dvd_left nB bB)) (Nat.gcd_pos_of_pos_right nB hbB)
+    omega
+  have hpT : nT / Nat.gcd nT bT ≠ 0 := by
+    have := Nat.div_pos (Nat.le_of_dvd hnT (Nat.gcd_dvd_left nT bT)) (Nat.gcd_pos_of_pos_right nT hbT)
+    omega
+  let k := Nat.chineseRemainder hco iB iT
+  refine ⟨k.1, ?_, hiB _ k.2.1, hiT _ k.2.2⟩
+  have hlt := Nat.chineseRemainder_lt_mul hco iB iT hpB hpT
+  simp only [sharedLen, lcm_div_right nB bB hbB, lcm_div_right nT bT hbT, hco.lcm_eq_mul]
+  exact hlt
+
+/-- non-vacuity: 6 functions in batches of 4 (period 3), 4 locations in batches of 2 (period 2) -/
+example : ∃ idx, idx < sharedLen 6 4 4 2 ∧ 5 ∈ (sharedBatch 6 4 4 2 idx).1 ∧ 3 ∈ (sharedBatch 6 4 4 2 idx).2 :=
+  shared_cover 6 4 4 2 (by decide) (by decide) (by decide) (by decide) (by decide) 5 3 (by decide) (by decide)
+
+
+/-- the same for every requested batch size (negative = everything, oversized = clamped) -/
+theorem shared_cover_eff (nB nT : Nat) (rB rT : Int) (hrB : rB ≠ 0) (hrT : rT ≠ 0)
+    (hco : Nat.Coprime (nB / Nat.gcd nB (effBatch nB rB)) (nT / Nat.gcd nT (effBatch nT rT)))
+    (f x : Nat) (hf : f < nB) (hx : x < nT) :
+    ∃ idx, idx < sharedLen nB (effBatch nB rB) nT (effBatch nT rT) ∧
+      f ∈ (sharedBatch nB (effBatch nB rB) nT (effBatch nT rT) idx).1 ∧
+      x ∈ (sharedBatch nB (effBatch nB rB) nT (effBatch nT rT) idx).2 :=
+  shared_cover nB _ nT _ (effBatch_pos nB rB (by omega) hrB) (effBatch_le nB rB)
+    (effBatch_pos nT rT (by omega) hrT) (effBatch_le nT rT) hco f x hf hx
 
 /-- pairing inside a DeepONet batch: entry (i, j) of the output block belongs to the i-th branch
     row and the j-th trunk row of the same batch -/
